@@ -29,6 +29,13 @@ def run(sh):
     engine_line.run_profile(sh, 'C02', 'general', n // 2, MONITORS, nontrivial)
     engine_line.run_profile(sh, 'C02', 'faults', n // 4, MONITORS, nontrivial)
     engine_line.run_profile(sh, 'C02', 'routing', n // 4, MONITORS, nontrivial)
+    # user code (a gate's decider) failing in the middle of a multi-part release; the caller carries on
+    from .. import core, modelgen
+    pol = ['prng', 'fifo', 'lifo', 'const']
+    for i in sh.share(max(24, n // 10)):
+        seed = core.stable_int(sh.seed, 'C02', 'errbuf', i) % (1 << 40)
+        engine_line.run_spec(sh, 'C02', modelgen.generate_error_buffer(seed, pol[i % 4]), MONITORS, nontrivial,
+                             prefix='error_path_')
 
 
 def replay(sh, v):
